@@ -17,7 +17,7 @@ from ..gen import J, JI
 
 PROP = "C04"
 HOSTILE = ('scale', 'special')
-MONITORS = ("WF", "CACHE", "SPEC", "DENS")
+MONITORS = ("WF", "CACHE", "SPEC", "DENS", "FORM")
 REQUIRED_MONITORS = ("CACHE",)
 ANCHORS = [("factor.py", "OneRankFactor._multiply_with_measure", "# Sherman morrison"),
            ("factor.py", "OneRankFactor._hadamard_with_measure", "# Sherman morrison"),
